@@ -1,6 +1,6 @@
 """Shared driver for the codec properties (C01, C02, C11): run one TestVerif* of the llrp harness, compare with the
 Lean oracle, classify mismatches."""
-import collections, re
+import collections, os, re, shutil, sys, tempfile
 from vlib import core
 
 
@@ -41,3 +41,40 @@ def shape_key(r):
     ty = parts[1] if len(parts) > 1 else '?'
     hx = parts[2][1:] if len(parts) > 2 else ''
     return ty, len(hx) // 2
+
+
+def regen_check(res):
+    """each generated encoder/decoder is the generator's output for the current table (programs validated against the table)"""
+    src = os.path.join(core.REPO, 'pkg/llrp')
+    tmp = tempfile.mkdtemp(prefix='regen', dir=core.BUILD)
+    try:
+        for f in ('generate_param_code.py', 'messages.yaml'):
+            shutil.copy(os.path.join(src, f), tmp)
+        names = dict(s='generated_structs.go', t='binary_test.go', m='generated_marshal.go', u='generated_unmarshal.go', e='generated_encoder.go')
+        cmd = [sys.executable, 'generate_param_code.py', '-i', 'messages.yaml']
+        for k, v in names.items():
+            cmd += ['-' + k, v]
+        rc, out = core.run(cmd, cwd=tmp, env=core.GOENV)
+        if rc != 0:
+            res.ob_failures.append(('regen:generator', out[-1500:]))
+            return
+        def body(p):
+            lines = open(p).read().split('\n')
+            # drop the licence banner (leading comment lines up to the first blank line) if present
+            i = 0
+            if lines and lines[0].startswith('//') and not lines[0].startswith('// Code generated'):
+                while i < len(lines) and lines[i].startswith('//'):
+                    i += 1
+                while i < len(lines) and lines[i] == '':
+                    i += 1
+            return '\n'.join(lines[i:]).strip()
+        n = 0
+        for v in names.values():
+            if v == 'binary_test.go':
+                continue
+            n += 1
+            if body(os.path.join(src, v)) != body(os.path.join(tmp, v)):
+                res.ob_failures.append(('regen:' + v, 'pkg/llrp/%s is not what generate_param_code.py produces from messages.yaml' % v))
+        res.extra['regenerated_files_compared'] = n
+    finally:
+        shutil.rmtree(tmp, ignore_errors=True)
